@@ -13,7 +13,8 @@ PROP = "C05"
 RULE = ("every PDAG(n) (per pair: none, ->, <-, --; cyclic directed layers included), n<=3 quick / n<=4 thorough (4096), "
         "patterns of all DAG(4) quick / DAG(5) thorough; seeded random PDAGs n<=8 (free kinds; DAG with a random subset of "
         "non-v-structure edges undirected; DAG with arbitrary edges undirected); consequences on every DAG(n) n<=4 quick / "
-        "n<=5 thorough and random DAGs n<=9. Oracle (all orientations of the undirected edges) when |U|<=12. "
+        "n<=5 thorough and random DAGs n<=9; repeat streams (pdag_to_dag / pdag_to_cpdag / dag_to_cpdag called before on the SAME "
+        "object, for cons cases with edges added/removed in between) and pre-existing 'order'/'label' edge attributes. Oracle (all orientations of the undirected edges) when |U|<=12. "
         "distinct by canonical graph; non-trivial = PDAG has an undirected and a directed edge")
 EXHAUSTIVE = {"quick": "all PDAG(n) n<=3; patterns and consequences of all DAG(n) n<=4",
               "thorough": "all 4096 PDAG(4) and smaller; patterns and consequences of all DAG(n) n<=5"}
@@ -97,11 +98,25 @@ def gen_cases(tier, rng):
         c = {"kind": "rand", "mode": "pdag", "g": g}
         if rng.random() < 0.5:
             c["_order"] = rng.randint(3, 10 ** 6)
+        if rng.random() < 0.3:
+            c["repeat"] = True
+        if rng.random() < 0.3:
+            c["attrs"] = rng.randint(0, 10 ** 6)
         yield c
     for i in range(nr // 2):
         n = rng.randint(5, 9)
         g = c04.components_dag(rng, n) if rng.random() < 0.3 else c04.random_dag(rng, n, rng.choice([0.2, 0.35, 0.5]))
-        yield {"kind": "randcons", "mode": "cons", "g": g}
+        c = {"kind": "randcons", "mode": "cons", "g": g}
+        r = rng.random()
+        if r < 0.3:
+            c = dict(c04.repeat_variant(rng, g), kind="randcons-repeat", mode="cons")
+        elif r < 0.5:
+            c["attrs"] = rng.randint(0, 10 ** 6)
+        yield c
+    for g in gr.enum_dag(4):
+        yield dict(c04.repeat_variant(rng, g), kind="cons4-repeat", mode="cons")
+    for g in gr.enum_pdag(3, acyclic=False):
+        yield {"kind": "pdag3-repeat", "mode": "pdag", "g": g, "repeat": True, "attrs": rng.randint(0, 10 ** 6)}
 
 
 def oracle_on(case):
@@ -130,7 +145,17 @@ def run_impl(case):
     sink = io.StringIO()
     if case["mode"] == "pdag":
         P, lab, inv = gr.to_cpdag(g, case)
+        if case.get("attrs") is not None:      # pre-existing edge attributes named like dag_to_cpdag's own
+            for lg in P.get_graphs().values():
+                c04.decorate(lg, case["attrs"])
         before = gr.snapshot(P)
+        if case.get("repeat"):                 # a first call on the same object must not influence the second
+            with contextlib.redirect_stdout(sink):
+                for f in (pdag_to_dag, pdag_to_cpdag):
+                    try:
+                        f(P)
+                    except ValueError:
+                        pass
         try:
             with contextlib.redirect_stdout(sink):
                 R = pdag_to_dag(P)
@@ -141,11 +166,14 @@ def run_impl(case):
         out["nodes"] = d["V"]
         out["valid"] = coq_eval([[2, gr.enc(g), gr.enc(d)]])[0][0]
         return out
-    Dg, lab, inv = gr.to_digraph(g, case)
+    Dg, lab, inv = c04.build(case, first_call=dag_to_cpdag)
     with contextlib.redirect_stdout(sink):
         Cg = dag_to_cpdag(Dg)
         before = gr.snapshot(Cg)
         C2 = pdag_to_cpdag(Cg)
+        if case.get("repeat"):
+            C2 = pdag_to_cpdag(Cg)
+            pdag_to_dag(Cg)
         R = pdag_to_dag(Cg)
     a, b = gr.from_mixed(Cg, inv), gr.from_mixed(C2, inv)
     return {"fix": int(a == b), "equiv": coq_eval([[3, gr.enc(g), gr.enc(_dag_abs(R, inv))]])[0][0],
@@ -189,7 +217,8 @@ def nontrivial(case, model):
 
 
 def key(case):
-    return (case["mode"], gr.canon(case["g"]))
+    return (case["mode"], gr.canon(case["g"]), bool(case.get("repeat")), case.get("attrs"),
+            tuple(map(tuple, case.get("drop", []))), tuple(map(tuple, case.get("extra", []))))
 
 
 def classify(case, impl, model):
@@ -197,5 +226,8 @@ def classify(case, impl, model):
 
 
 def shrink(case):
+    if "drop" in case:
+        yield from c04.shrink(case)
+        return
     for h in gr.shrink_graph(case["g"]):
         yield dict(case, g=h)
